@@ -287,6 +287,96 @@ class SStr:
         raise Unsupported("format of a symbolic string outside the f-string hook")
 
 
+# ---- regular expressions over bounded strings ------------------------------------------------------------------
+# Only patterns that are a concatenation of single-character items (literal, class) with optional quantifiers
+# are modelled (identifier-like patterns); anything else is Unsupported.
+
+def _charset_term(ch, spec):
+    """z3 Bool: character term ch is in the sre IN-list / literal `spec`"""
+    import re._constants as C
+    op, av = spec
+    if op == C.LITERAL:
+        return _c(ch) == av
+    if op == C.NOT_LITERAL:
+        return _c(ch) != av
+    if op == C.ANY:
+        return _c(ch) != 10
+    if op == C.IN:
+        neg = False
+        alts = []
+        for (o2, a2) in av:
+            if o2 == C.NEGATE:
+                neg = True
+            elif o2 == C.LITERAL:
+                alts.append(_c(ch) == a2)
+            elif o2 == C.RANGE:
+                alts.append(z3.And(z3.UGE(_c(ch), a2[0]), z3.ULE(_c(ch), a2[1])))
+            elif o2 == C.CATEGORY:
+                name = str(a2)
+                digit = z3.And(z3.UGE(_c(ch), 48), z3.ULE(_c(ch), 57))
+                word = z3.Or(digit, z3.And(z3.UGE(_c(ch), 65), z3.ULE(_c(ch), 90)), z3.And(z3.UGE(_c(ch), 97), z3.ULE(_c(ch), 122)), _c(ch) == 95)
+                space = z3.Or(*[_c(ch) == w for w in SStr._WS])
+                if name.endswith("CATEGORY_DIGIT"):
+                    alts.append(digit)
+                elif name.endswith("CATEGORY_NOT_DIGIT"):
+                    alts.append(z3.Not(digit))
+                elif name.endswith("CATEGORY_WORD"):
+                    alts.append(word)
+                elif name.endswith("CATEGORY_NOT_WORD"):
+                    alts.append(z3.Not(word))
+                elif name.endswith("CATEGORY_SPACE"):
+                    alts.append(space)
+                elif name.endswith("CATEGORY_NOT_SPACE"):
+                    alts.append(z3.Not(space))
+                else:
+                    raise Unsupported(f"regex category {name}")
+            else:
+                raise Unsupported(f"regex class item {o2}")
+        t = z3.Or(*alts) if alts else z3.BoolVal(False)
+        return z3.Not(t) if neg else t
+    raise Unsupported(f"regex item {op}")
+
+
+def regex_fullmatch(pattern, flags, s):
+    """SBool: the whole of s matches the pattern (ASCII strings; flags other than 0/UNICODE unsupported)"""
+    import re
+    import re._parser as P
+    import re._constants as C
+    if flags & ~(re.UNICODE | re.ASCII):
+        raise Unsupported("regex flags")
+    items = []
+    for op, av in P.parse(pattern):
+        if op in (C.MAX_REPEAT, C.MIN_REPEAT):
+            lo, hi, sub = av
+            sub = list(sub)
+            if len(sub) != 1:
+                raise Unsupported("regex: repeat of a group")
+            items.append((sub[0], lo, None if hi == C.MAXREPEAT else hi))
+        elif op in (C.LITERAL, C.NOT_LITERAL, C.IN, C.ANY):
+            items.append(((op, av), 1, 1))
+        else:
+            raise Unsupported(f"regex construct {op}")
+    s.fix()
+    n = len(s.cs)
+    memo = {}
+
+    def match(i, pos):
+        if (i, pos) in memo:
+            return memo[(i, pos)]
+        if i == len(items):
+            r = z3.BoolVal(pos == n)
+        else:
+            spec, lo, hi = items[i]
+            top = n - pos if hi is None else min(hi, n - pos)
+            alts = []
+            for k in range(lo, top + 1):
+                alts.append(z3.And(*[_charset_term(s.cs[pos + j], spec) for j in range(k)], match(i + 1, pos + k)))
+            r = z3.Or(*alts) if alts else z3.BoolVal(False)
+        memo[(i, pos)] = r
+        return r
+    return SBool(z3.simplify(match(0, 0)))
+
+
 def join(sep, items):
     items = list(items)
     out = SStr([])
